@@ -39,7 +39,7 @@ type targ struct {
 	key     string // "" = brand-new record without key
 	name    string
 	keyOnly bool   // existing record passed with its key only
-	class   string // new | newkey | gone | free | linked | other | dup | absent
+	class   string // new | newkey | gone | free | linked | other | dup | samecall | absent
 }
 
 type arg struct {
@@ -386,7 +386,9 @@ func (k *kase) seed() {
 	case 1:
 		nOp = 2
 	case 2:
-		nOp = r.Range(2, 3)
+		// (now and then the slice holds one record only)
+		nOp = core.Pick(r, []int{1, 2, 2, 2, 3, 3, 3})
+		k.c.Inc(fmt.Sprintf("cases_owner_slice_of_%d", nOp))
 	}
 	seedOperated := r.Chance(1, 3)
 	seedable := append([]string(nil), all[nOp:]...)
@@ -690,6 +692,7 @@ func (k *kase) genStep(i int) *step {
 			break
 		}
 		if st.sliceLvl {
+			var named []*targ // existing records the call names for the owners handled so far
 			for idx, ov := range st.owners {
 				av := map[string]bool{}
 				for t := range avoid {
@@ -707,20 +710,42 @@ func (k *kase) genStep(i int) *step {
 					}
 				}
 				var ts []*targ
+				// relations in which one record may be linked to several owners (join rows; key columns of
+				// several owners naming one record): one call in three names a record for this owner that
+				// it names for an earlier owner as well
+				var again *targ
+				if len(named) > 0 && (s.store == joinRows || (s.store == fkOwner && !k.noShare)) && r.Chance(1, 3) {
+					if p := core.Pick(r, named); !av[p.key] {
+						again = &targ{key: p.key, name: p.name, class: "samecall", keyOnly: r.Chance(1, 5)}
+						k.c.Inc("slice_calls_naming_one_record_for_two_owners")
+					}
+				}
 				if s.single {
 					ts = k.pickTargets(ov.ok, 1, false, true, av, noOther)
 					if len(ts) == 0 {
 						return nil
 					}
+					if again != nil {
+						ts = []*targ{again}
+					}
 					st.args = append(st.args, s.buildArg("ptr", ts))
 				} else {
 					n := core.Pick(r, []int{0, 1, 1, 1, 2, 2, 3})
 					ts = k.pickTargets(ov.ok, n, false, true, av, noOther)
+					if again != nil {
+						at := r.Intn(len(ts) + 1)
+						ts = append(ts[:at:at], append([]*targ{again}, ts[at:]...)...)
+					}
 					form := core.Pick(r, []string{"slice", "ptrslice", "sliceptr"})
 					if len(ts) == 1 && r.Bool() {
 						form = "ptr"
 					}
 					st.args = append(st.args, s.buildArg(form, ts))
+				}
+				for _, t := range ts {
+					if t.class == "free" || t.class == "linked" || t.class == "other" {
+						named = append(named, t)
+					}
 				}
 				if crossAvoid {
 					for _, t := range ts {
@@ -840,6 +865,47 @@ type problem struct {
 	what string
 	msg  string
 	unsc bool // a Count / Find issued through Association(..).Unscoped()
+	slc  bool // a Count / Find issued on a slice of owner values
+}
+
+// sliceLinks: what a slice of owner values holds - its links as a sorted multiset of target keys (one
+// entry per (owner, target) link) and the distinct linked records.
+func (m *model) sliceLinks(owners []string) (links, set []string) {
+	seen := map[string]bool{}
+	for _, o := range owners {
+		for t := range m.links[o] {
+			links = append(links, t)
+			seen[t] = true
+		}
+	}
+	sort.Strings(links)
+	return links, sortedKeys(seen)
+}
+
+// checkSliceCount / checkSliceFind: Count and Find on a slice of owner values report exactly the links
+// of these owners - one per (owner, target) pair: a record linked to two of the owners through join rows
+// is two links. Belongs to: the key columns of two owners may name the same record; gorm reads the
+// referenced records there, so the distinct records are accepted as well as one per link.
+func (k *kase) checkSliceCount(n int64, owners []string) string {
+	links, set := k.m.sliceLinks(owners)
+	if len(links) != len(set) {
+		k.c.Inc("owner_slice_reads_with_a_record_linked_to_several_of_the_owners")
+	}
+	if n == int64(len(links)) || (k.spec.store == fkOwner && n == int64(len(set))) {
+		return ""
+	}
+	return fmt.Sprintf("= %d, the owners %v hold %d links %v (%d distinct records)", n, owners, len(links), links, len(set))
+}
+
+func (k *kase) checkSliceFind(found []string, owners []string) string {
+	links, set := k.m.sliceLinks(owners)
+	if len(links) != len(set) {
+		k.c.Inc("owner_slice_reads_with_a_record_linked_to_several_of_the_owners")
+	}
+	if eqStrs(found, links) || (k.spec.store == fkOwner && eqStrs(found, set)) {
+		return ""
+	}
+	return fmt.Sprintf("returned %v, the owners %v hold the links %v (one row per link)", found, owners, links)
 }
 
 func (k *kase) findKeys(recv interface{}, st *step) ([]string, error) {
@@ -1022,6 +1088,61 @@ func (k *kase) checkState(st *step, eff *effect) []problem {
 			k.c.Inc("inmemory_skipped(value did not receive every operation)")
 		}
 	}
+	// Count / Find on slices of owner values: the operated slice, and a fresh slice that holds the
+	// operated owners in reverse order plus a bystander owner row (whose seeded links often name
+	// records the operated owners are linked to as well)
+	type view struct {
+		name   string
+		recv   interface{}
+		owners []string
+		how    *step
+	}
+	var views []view
+	var opKeys []string
+	for _, ov := range k.vals {
+		opKeys = append(opKeys, ov.ok)
+	}
+	if k.mode == 2 {
+		views = append(views, view{"&owners", k.slice.Interface(), opKeys, nil})
+	}
+	var fkeys []string
+	for i := len(opKeys) - 1; i >= 0; i-- {
+		fkeys = append(fkeys, opKeys[i])
+	}
+	if len(k.owners) > len(opKeys) {
+		fkeys = append(fkeys, k.owners[len(opKeys)])
+	}
+	fs := reflect.New(reflect.SliceOf(s.ownerT))
+	fs.Elem().Set(reflect.MakeSlice(reflect.SliceOf(s.ownerT), len(fkeys), len(fkeys)))
+	flits := make([]string, len(fkeys))
+	for i, o := range fkeys {
+		fk := ""
+		if s.store == fkOwner {
+			fk = s.ownerFK(o)
+		}
+		s.setOwner(fs.Elem().Index(i), o, "o-"+o, fk)
+		flits[i] = strings.TrimPrefix(s.ownerLit(o), s.ownerT.Name())
+	}
+	fname := "a fresh &[]" + s.ownerT.Name() + "{" + strings.Join(flits, ", ") + "}"
+	views = append(views, view{fname, fs.Interface(), fkeys, nil}, view{fname + " with Association(..).Unscoped()", fs.Interface(), fkeys, readUnscoped})
+	for _, v := range views {
+		a := k.assoc(v.recv, v.how)
+		n := a.Count()
+		if a.Error != nil {
+			add("error", "Count through %s: %v", v.name, a.Error)
+		} else if msg := k.checkSliceCount(n, v.owners); msg != "" {
+			add("count", "Count through %s %s", v.name, msg)
+			ps[len(ps)-1].unsc, ps[len(ps)-1].slc = v.how != nil, true
+		}
+		got, err := k.findKeys(v.recv, v.how)
+		if err != nil {
+			add("error", "Find through %s: %v", v.name, err)
+		} else if msg := k.checkSliceFind(got, v.owners); msg != "" {
+			add("find", "Find through %s %s", v.name, msg)
+			ps[len(ps)-1].unsc, ps[len(ps)-1].slc = v.how != nil, true
+		}
+		k.c.Add("count_find_comparisons_on_owner_slices", 2)
+	}
 	return ps
 }
 
@@ -1047,7 +1168,9 @@ func (k *kase) run() {
 	}
 	// the seeded state itself must read back as the model
 	if ps := k.checkState(nil, nil); len(ps) > 0 {
-		if onlyUnscopedReads(ps) {
+		if onlySliceReads(ps) {
+			fail("count-find-on-owner-slice-differs:"+s.name+":seeded-state", nil, ps)
+		} else if onlyUnscopedReads(ps) {
 			fail("count-find-through-unscoped-handle-differs:"+s.name+":seeded-state", nil, ps)
 		} else {
 			fail("seed-readback", nil, ps)
@@ -1181,22 +1304,16 @@ func (k *kase) run() {
 		}
 		// explicit Count / Find steps
 		if st.op == "Count" || st.op == "Find" {
-			links := 0
-			set := map[string]bool{}
+			var oks []string
 			for _, ov := range st.owners {
-				links += len(k.m.links[ov.ok])
-				for t := range k.m.links[ov.ok] {
-					set[t] = true
-				}
+				oks = append(oks, ov.ok)
 			}
 			if st.op == "Count" {
-				if count < int64(len(set)) || count > int64(links) {
-					ps = append(ps, problem{"count", fmt.Sprintf("Count() = %d, the owners hold %d links to %d distinct records", count, links, len(set)), st.unscoped})
+				if msg := k.checkSliceCount(count, oks); msg != "" {
+					ps = append(ps, problem{"count", "Count() " + msg, st.unscoped, st.sliceLvl})
 				}
-			} else if got := distinct(found); !eqStrs(got, sortedKeys(set)) {
-				ps = append(ps, problem{"find", fmt.Sprintf("Find returned records %v, linked records are %v", got, sortedKeys(set)), st.unscoped})
-			} else if !st.sliceLvl && len(found) != len(set) {
-				ps = append(ps, problem{"find", fmt.Sprintf("Find returned %v (duplicates), linked records are %v", found, sortedKeys(set)), st.unscoped})
+			} else if msg := k.checkSliceFind(found, oks); msg != "" {
+				ps = append(ps, problem{"find", "Find " + msg, st.unscoped, st.sliceLvl})
 			}
 		}
 		ps = append(ps, k.checkState(st, eff)...)
@@ -1265,6 +1382,16 @@ func intSet(m map[string]int) map[string]bool {
 		out[k] = true
 	}
 	return out
+}
+
+// onlySliceReads: every disagreement is a Count / Find issued on a slice of owner values.
+func onlySliceReads(ps []problem) bool {
+	for _, p := range ps {
+		if !p.slc {
+			return false
+		}
+	}
+	return len(ps) > 0
 }
 
 // onlyUnscopedReads: every disagreement is a Count / Find issued through Association(..).Unscoped().
@@ -1475,6 +1602,15 @@ func (k *kase) sig(st *step, ps []problem, sn *snapshot, applied bool) string {
 			return "composite-key-collision"
 		}
 	}
+	if onlySliceReads(ps) {
+		// stored links, records, the in-memory field and Count / Find of every single owner value agree
+		// with the model; only Count / Find on a slice of owner values differ
+		sg := "count-find-on-owner-slice-differs:" + s.name + ":after-" + st.op
+		if onlyUnscopedReads(ps) {
+			sg += ":unscoped-handle-only"
+		}
+		return sg
+	}
 	if onlyUnscopedReads(ps) {
 		// stored links, records, the in-memory field and Count / Find through scoped handles all
 		// agree with the model; only Count / Find through Association(..).Unscoped() differ
@@ -1508,10 +1644,10 @@ var Engine = &core.Engine{
 	Level: "exploration",
 	Rule: "one sequence per case: relation kind (has many, has many with soft-delete targets, has one, belongs to with value / pointer key column, many-to-many, polymorphic has many, polymorphic has one, many-to-many with two-column string keys; soft delete: has one, polymorphic has many and belongs to with soft-delete targets, many-to-many through a join model with a soft-delete column (SetupJoinTable), where a removed link is a soft-deleted join row; " +
 		"key shapes: belongs to a record with an application-assigned string key, belongs to a record with a two-column (integer,string) key through value key columns, has many through a two-column foreign key, many-to-many with two-column keys on both sides - in these three the keys are drawn from pools in which a part holds its zero value (site 0, slug \"\", locale \"\") and keys share parts) " +
-		"x owner mode (one owner value; two owner values; a slice of 2..3 owner values - []Owner or []*Owner, the latter also passed by value - incl. calls on single elements) x scoping (scoped; Unscoped; mixed) are enumerated from the case index; " +
-		"owners/targets/links are seeded with raw SQL (bystander owners, a decoy polymorphic owner type with equal keys, optionally links of the operated owners; soft-delete kinds: 0..3 leftovers of earlier removals that are not links - soft-deleted target rows whose key column still names an owner, soft-deleted join rows); 3..8 random steps Append/Replace/Delete/Clear/Count/Find (every one of them, Count and Find included, through Association(..) or Association(..).Unscoped() according to the scoping of the case; writes on soft-delete kinds also behind db.Unscoped()) with targets drawn from brand-new (key from the database), brand-new with a key chosen by the application, a value of a record that an earlier Unscoped step of the sequence removed for good (key still set), existing unlinked, already linked, linked to another owner, duplicate-in-call, and (Delete) a record without a row, in literal forms &T, T, []T, &[]T, []*T; " +
+		"x owner mode (one owner value; two owner values; a slice of 1..3 owner values - []Owner or []*Owner, the latter also passed by value - incl. calls on single elements) x scoping (scoped; Unscoped; mixed) are enumerated from the case index; " +
+		"owners/targets/links are seeded with raw SQL (bystander owners, a decoy polymorphic owner type with equal keys, optionally links of the operated owners; soft-delete kinds: 0..3 leftovers of earlier removals that are not links - soft-deleted target rows whose key column still names an owner, soft-deleted join rows); 3..8 random steps Append/Replace/Delete/Clear/Count/Find (every one of them, Count and Find included, through Association(..) or Association(..).Unscoped() according to the scoping of the case; writes on soft-delete kinds also behind db.Unscoped()) with targets drawn from brand-new (key from the database), brand-new with a key chosen by the application, a value of a record that an earlier Unscoped step of the sequence removed for good (key still set), existing unlinked, already linked, linked to another owner, duplicate-in-call, (slice-level Append / Replace on many-to-many and belongs-to kinds, one call in three per later owner) a record the same call names for an earlier owner of the slice as well, and (Delete) a record without a row, in literal forms &T, T, []T, &[]T, []*T; " +
 		"calls that name NO target: about one Append in eight and one Replace in ten has no argument at all (Append(items...) with an empty list - every kind incl. has one / belongs to / polymorphic has one, one owner value and a slice of owner values) or (multi-valued kinds) only empty / nil slices ([]T{}, &[]T{}, []*T{}, []T(nil)); one call in ten (multi-valued Append/Replace, every Delete) carries such an empty slice among its other arguments; Delete without targets is Delete() or Delete(<empty slice>); Append of nothing must leave links, records, Count/Find and the in-memory field as they are (on owners that hold links: counted), Replace of nothing is Clear; " +
-		"after every step raw-SQL links and target rows, Count/Find (operated value and fresh value through a scoped handle, fresh value also through an Unscoped() association handle) and the in-memory relation field are compared with the link-set model; distinct = (kind, key pools, owner mode, slice element kind, scoping, per step: op, unscoped, slice-level, target classes, changed); non-trivial = at least two steps changed the link set",
+		"after every step raw-SQL links and target rows, Count/Find (operated value and fresh value through a scoped handle, fresh value also through an Unscoped() association handle), Count/Find on SLICES of owner values (the operated slice; a fresh slice holding the operated owners in reverse order plus a bystander owner row, through a scoped and an Unscoped() association handle - in every owner mode, so records linked to several owners of the slice are the rule: counted) and the in-memory relation field are compared with the link-set model; on a slice, Count must be the number of (owner, target) links and Find must return one row per link; distinct = (kind, key pools, owner mode, slice element kind, scoping, per step: op, unscoped, slice-level, target classes, changed); non-trivial = at least two steps changed the link set",
 	Assumptions: []string{
 		"every association call is made on a fresh db.Model(value).Association(name) (association handles are not reusable)",
 		"has-one / belongs-to Append and Replace get exactly one target (&T) per owner, or no argument at all; Append/Replace on a slice of owners get exactly one argument per owner (association.go: ErrInvalidValueOfLength otherwise), or no argument at all",
@@ -1527,7 +1663,8 @@ var Engine = &core.Engine{
 		"a value whose links were seeded with raw SQL (not loaded into its relation field) counts as not having received every operation until its next Replace/Clear",
 		"belongs-to cases with Unscoped steps never link one target to two owners (deleting a shared target would leave a dangling key the statement says nothing about)",
 		"an Unscoped Append/Replace on a slice of has-one/has-many owners never moves a target between two owners of that call",
-		"Count on a slice of owners is accepted between the number of distinct linked records and the number of links",
+		"Count / Find on a slice of owners report the links of these owners, one per (owner, target) pair: a record linked to two of the owners through join rows counts twice and is returned twice (has one / has many: a record has one owner, so links and records coincide); belongs to only: when the key columns of several owners name one record, the distinct referenced records are accepted as well as one per link (the statement does not say whether a shared referenced record is one link or several there)",
+		"the fresh slice used for reads never names an owner row twice",
 		"Delete() / Delete(<empty slice>) without targets is generated for every kind (multi-column keys too, since the empty multi-column IN renders a row of NULLs) and must change nothing",
 		"many-to-many: Unscoped removes join rows only (targets survive), as scoped",
 		"Association(..).Unscoped() only changes what a removal does to the associated records: Count and Find through an Unscoped() handle must report exactly the links, as through a scoped handle (checked after every step on every kind); Count / Find behind db.Unscoped() (which reads soft-deleted rows on purpose) are not generated",
